@@ -176,9 +176,25 @@ def oracle(case, out):
         return bad
     if any(0 in lab for (_, _, _, labels, _) in msg["srv"] for lab in labels):
         return bad  # a NUL inside a label has no C-string rendering; only the general conditions apply
-    exp = sorted((p, w, port, hx(dotted(labels)[:MAXT - 1])) for (p, w, port, labels, _) in msg["srv"])
-    if sorted(recs) != exp:
-        bad.append("well-formed response: expected records %s, got %s" % (exp, sorted(recs)))
+    # names within the RFC limit (255 octets on the wire, text <= 253) must come out exactly; a longer
+    # one ("loose") is cut by the truncating append: a prefix of the text, 254 or 255 characters long
+    def key(p, w, port, text):
+        return (p, w, port, text[:MAXT - 2])
+    exp = sorted(((p, w, port, dotted(labels)) for (p, w, port, labels, _) in msg["srv"]), key=lambda r: key(*r))
+    got = sorted(((p, w, port, b"" if t == "-" else bytes.fromhex(t)) for (p, w, port, t) in recs if t != "UNTERMINATED"),
+                 key=lambda r: key(*r))
+    same = len(exp) == len(got)
+    if same:
+        for e, g in zip(exp, got):
+            if e[:3] != g[:3]:
+                same = False
+            elif len(e[3]) < MAXT - 2:
+                same = same and g[3] == e[3]
+            else:
+                same = same and e[3].startswith(g[3]) and MAXT - 2 <= len(g[3]) < MAXT
+    if not same:
+        bad.append("well-formed response: expected records %s, got %s"
+                   % ([(a, b, c, hx(t)) for a, b, c, t in exp], [(a, b, c, hx(t)) for a, b, c, t in got]))
     if (st == "F") != bool(exp):
         bad.append("well-formed response with %d IN/SRV answers: status %s" % (len(exp), st))
     return bad
